@@ -259,7 +259,7 @@ def build_genc_native(work, cfile, entry):
     exe = cfile[:-2] + '_' + entry + '_gen'
     main = cfile[:-2] + '_' + entry + '_main.c'
     open(main, 'w').write('#include "%s"\nint main(){ %s(); fflush(stdout); return 0; }\n' % (cfile, entry))
-    rc, out, dt, to = _sh(['gcc', '-O1', '-w', '-I', Q2C, main, '-o', exe, '-lm'], timeout=300)
+    rc, out, dt, to = _sh(['gcc', '-O1', '-w', '-I', Q2C, main, '-o', exe, '-lm', '-lstdc++'], timeout=300)
     return exe, (out[-2000:] if rc != 0 else None)
 
 
